@@ -135,8 +135,11 @@ package security
 //@   loop 1 invariant entries_unlocked: forall k :: old(has(c.sessions, k)) ==> !held(&old(c.sessions[k]).mu)
 //@   loop 2 invariant locked: held(&c.mu) && c.sessions == old(c.sessions) && c.commandMap == old(c.commandMap)
 //@   loop 2 invariant settled: forall k :: visited(2, k) && has(c.commandMap, k) ==> has(c.sessions, c.commandMap[k])
+//@   loop 2 invariant routes_only_removed: forall k :: has(c.commandMap, k) ==> old(has(c.commandMap, k)) && c.commandMap[k] == old(c.commandMap[k])
 //@   loop 2 invariant only_removed: forall k :: has(c.sessions, k) ==> old(has(c.sessions, k)) && c.sessions[k] == old(c.sessions[k])
-//@   ensures no_dangling_routes: [C07] forall k :: has(c.commandMap, k) ==> has(c.sessions, c.commandMap[k])
+//@   loop 1 invariant nothing_removed_yet: count == 0 ==> forall k :: old(has(c.sessions, k)) ==> has(c.sessions, k)
+//@   ensures routes_of_removed_sessions_removed: [C07] forall k :: has(c.commandMap, k) && old(has(c.sessions, c.commandMap[k])) ==> has(c.sessions, c.commandMap[k])
+//@   ensures routes_only_removed: [C07] forall k :: has(c.commandMap, k) ==> old(has(c.commandMap, k)) && c.commandMap[k] == old(c.commandMap[k])
 //@   ensures only_removed: [C06] forall k :: has(c.sessions, k) ==> old(has(c.sessions, k)) && c.sessions[k] == old(c.sessions[k])
 //@   ensures wf_kept: cacheWF(c)
 
